@@ -12,7 +12,7 @@ Clear/CopyFrom/`del repeated[:]`/extend semantics.
 """
 from __future__ import annotations
 
-from pyvc.values import SObj, Opaque
+from pyvc.values import SObj, Opaque, SInt, SBool
 
 FIELDS = ["ir_version", "opset_import", "producer_name", "producer_version", "domain", "model_version",
           "doc_string", "graph", "metadata_props", "training_info", "functions"]
@@ -151,17 +151,23 @@ class World:
 
     def describe(self, p):
         ir = self.ir
-        name = type(p).__name__
-        if isinstance(p, (ir.passes.PassManager, ir.passes.Sequential)):
-            subs = getattr(p, "passes", None) or getattr(p, "_passes", [])
-            return (name, tuple(self.describe(x) for x in subs), getattr(p, "steps", None))
+        sym = lambda v: ("sym", str(v.t)) if isinstance(v, (SInt, SBool)) else v
+        if isinstance(p, SObj):
+            name, attrs, cls = p.pycls.__name__, dict(p.fields), p.pycls
+        else:
+            name, attrs, cls = type(p).__name__, vars(p), type(p)
+        if issubclass(cls, (ir.passes.PassManager, ir.passes.Sequential)):
+            subs = attrs.get("passes") or attrs.get("_passes") or []
+            return (name, tuple(self.describe(x) for x in subs), sym(attrs.get("steps")), sym(attrs.get("early_stop")))
         cfg = {}
-        for k, v in sorted(vars(p).items()):
+        for k, v in sorted(attrs.items()):
             if k.startswith("__"):
                 continue
             if isinstance(v, (int, float, str, bool, type(None), tuple, frozenset)):
                 cfg[k] = v
-            elif isinstance(v, ir.passes.PassBase):
+            elif isinstance(v, (SInt, SBool)):
+                cfg[k] = ("sym", str(v.t))
+            elif isinstance(v, ir.passes.PassBase) or (isinstance(v, SObj) and isinstance(v.pycls, type) and issubclass(v.pycls, ir.passes.PassBase)):
                 cfg[k] = self.describe(v)
             else:
                 cfg[k] = type(v).__name__
